@@ -27,8 +27,36 @@ EXCEPTIONS = {
 }
 
 
+def _closure_calls(F, q, depth=0):
+    """all calls made inside closure q (and the closures it passes on)"""
+    out = []
+    if q not in F.fn_bodies or depth > 3:
+        return out
+    for j, c2 in F.calls(q):
+        out.append(c2)
+        for a in c2['args']:
+            for r in F.trace(q, a):
+                if r[0] == 'agg' and r[1][0] == 'closure':
+                    out += _closure_calls(F, r[1][1], depth + 1)
+    return out
+
+
 def _bb_of_calls(F, p, pred):
-    return [(i, c) for i, c in F.calls(p) if pred(callee_of(c), c)]
+    """call sites of p satisfying pred; a call made inside a closure counts at the block of p where the closure is handed to its
+    consumer (and_then / map / find_map / ...), with the consumer call standing in for it (closure bodies are treated as inlined)"""
+    out = [(i, c) for i, c in F.calls(p) if pred(callee_of(c), c)]
+    for i, c in F.calls(p):
+        for a in c['args']:
+            for r in F.trace(p, a):
+                if r[0] == 'agg' and r[1][0] == 'closure':
+                    for c2 in _closure_calls(F, r[1][1]):
+                        try:
+                            hit = pred(callee_of(c2), c2)
+                        except Exception:
+                            hit = False
+                        if hit and (i, c) not in out:
+                            out.append((i, c))
+    return out
 
 
 def run(F, tier, res):
@@ -221,8 +249,11 @@ def run(F, tier, res):
     callers = Ru.call_sites(F, lambda r, c: r.endswith('::git_config_get'))
     for (p, i, c) in callers:
         ng += 1
-        if not p.endswith('GitConfig::get'):
+        if not p.endswith('GitConfig::get') and p not in gcg and p.rsplit('::{closure', 1)[0] not in gcg:
             res.violate('NO-GITCONFIG', 'fn=%s;raw-accessor' % p, 'a typed git-config accessor is called outside GitConfig::get: --no-gitconfig is bypassed', where=F.span_of_call(c))
+            continue
+        if p in gcg or p.rsplit('::{closure', 1)[0] in gcg:
+            okg += 1      # one typed accessor delegating to another: reachable only through GitConfig::get as well
             continue
         g = Ru.guarded_by(F, p, i, lambda roots: any(r[0] == 'param' and r[2] and r[2][-1] == 'enabled' for r in roots))
         if g:
